@@ -38,8 +38,11 @@
 (*                  every state that is not None)                                         *)
 (*      scn.tp[i]   the node through which pickle reaches i first (0 for node 1)          *)
 (*      scn.loads   <<[patch |-> <<path>>, fail, at, thr]>>: the loads() calls; a patch   *)
-(*                  dictionary is given by its leaf paths: <<"k2","w">> = {k2: {w: X}}    *)
+(*                  dictionary is given by its leaf paths: <<"k2","w">> = {k2: {w: X}},   *)
+(*                  <<"k2","{}">> = {k2: {}} (an empty dict patch)                        *)
 (*                  fail "none" | "raise" (__setstate__ of node `at` raises) | "trunc"    *)
+(*                  (stream cut after `at` events) | "noclass" (a stream naming a class   *)
+(*                  that cannot be imported)                                              *)
 (*      scn.par     loads 1 and 2 run concurrently on two threads                         *)
 (*      obs.dump    "ok" | "raised:<type>";  obs.gs[i] flags node i's __getstate__ saw    *)
 (*      obs.loads[k] = [outcome, top, nodes, ss]: nodes[i] = the entries of the loaded    *)
@@ -92,7 +95,9 @@ Addr(scn, c) == IF c = 1 THEN [ok |-> scn.g[1].kind = "opt", p |-> <<>>]
                      ELSE LET pa == Addr(scn, o[1]) IN
                           [ok |-> pa.ok, p |-> Append(pa.p, scn.g[o[1]].ent[o[2]].k)]
 \* keys of the patch dictionary found at address a
-PKeys(P, a) == {p[Len(a) + 1] : p \in {q \in Rng(P) : StrictPrefix(a, q)}}
+\* (a path ending in "{}" stands for an EMPTY dictionary at that place: <<"k2", "{}">> = {k2: {}}; it is a dict
+\* patch addressed to the child under k2 that overrides zero entries)
+PKeys(P, a) == {p[Len(a) + 1] : p \in {q \in Rng(P) : StrictPrefix(a, q)}} \ {"{}"}
 Patched(scn, P, i) == Addr(scn, i).ok /\ PKeys(P, Addr(scn, i).p) # {}
 \* every addressed object has a dict state (only entries of a dict state can be overridden)
 Patchable(scn, P) == \A i \in 1..N(scn) : Patched(scn, P, i) => scn.g[i].ds
